@@ -4,6 +4,7 @@
 //	c07 -seed N -n K            generated scenarios (each with reload ok and reload failed)
 //	c07 -seed N -only I -dump   print the objects of scenario I as a JSON array (corpus / replay format)
 //	c07 -objs file.json         run the objects stored in file.json (one JSON array)
+//	c07 -seed N -hseq K [-hb B] K batch sequences through the REAL eventHandlerImpl.HandleEventBatch (one line per batch)
 //	c07 -mkcorpus dir           (re)write the hand-minimised corpus scenarios
 package main
 
@@ -25,6 +26,8 @@ func main() {
 	only := flag.Int("only", -1, "generate only scenario I")
 	dump := flag.Bool("dump", false, "print the objects instead of running")
 	objsFile := flag.String("objs", "", "run the objects of this file")
+	hseq := flag.Int("hseq", 0, "number of batch sequences driven through the REAL eventHandlerImpl (instead of -n scenarios)")
+	hb := flag.Int("hb", 5, "maximum number of batches per sequence")
 	mkcorpus := flag.String("mkcorpus", "", "write the hand-minimised corpus scenarios into this directory")
 	flag.Parse()
 
@@ -70,6 +73,27 @@ func main() {
 	// rng.New(S+1) is rng.New(S) advanced by one draw, so consecutive seeds would replay each other's scenarios shifted
 	// by one; derive the stream from a mixed value instead.
 	r := rng.New(rng.New(*seed).U64() ^ 0xC07)
+	if *hseq > 0 {
+		panics := 0
+		for i := 0; i < *hseq; i++ {
+			fr := r.Fork()
+			s := c07.Generate(fr)
+			if *only >= 0 && i != *only {
+				continue
+			}
+			c07.RunSequence(fmt.Sprintf("h%d-%d", *seed, i), s, fr, fr.Range(2, *hb), func(l c07.Line) {
+				emit(l)
+				if l.Panic != "" {
+					panics++
+				}
+			})
+			if panics > 12 {
+				fmt.Fprintln(os.Stderr, "too many panics, stopping")
+				break
+			}
+		}
+		return
+	}
 	panics := 0
 	for i := 0; i < *n; i++ {
 		s := c07.Generate(r.Fork())
